@@ -49,6 +49,12 @@ def judge_matrix(j, Min, t, dirs, noisy, feat, detail):
     T = b.rt2tr(Min, t)
     routes = {"base.trnorm(R)": (lambda M: b.trnorm(M), Min), "base.trnorm(T)": (lambda M: b.trnorm(M), T),
               "SO3.norm": (lambda M: SO3(M, check=False).norm().A, Min), "SE3.norm": (lambda M: SE3(M, check=False).norm().A, T)}
+    if noisy:
+        # the noise of a nearly valid rigid-motion matrix also touches its bottom row
+        Tn = T.copy()
+        Tn[3, :] += float(detail.get("eps", 1e-9)) * np.array([0.3, -0.7, 0.5, 0.2])
+        routes["base.trnorm(T;noisy-bottom-row)"] = (lambda M: b.trnorm(M), Tn)
+        routes["SE3.norm(noisy-bottom-row)"] = (lambda M: SE3(M, check=False).norm().A, Tn)
     for site, (fn, arg) in routes.items():
         cid = (site, feat)
         out = guard(j, site, feat, detail, cid, lambda: np.asarray(fn(arg), dtype=float))
@@ -117,7 +123,10 @@ def lattice(j, cases):
                                  # a UnitQuaternion OBJECT that holds a non-unit value (built with norm=False) is
                                  # normalised by unit() like any quaternion; the N x 4 array form normalises every row
                                  "UnitQuaternion(v,norm=False).unit": lambda x: UnitQuaternion(x, norm=False, check=False).unit().vec,
-                                 "UnitQuaternion(Nx4)": lambda x: UnitQuaternion(np.array([x, 2 * x]))[0].vec}.items():
+                                 "UnitQuaternion(Nx4)": lambda x: UnitQuaternion(np.array([x, 2 * x]))[0].vec,
+                                 # ... read as stored (indexing builds a new object, which normalises again)
+                                 "UnitQuaternion(Nx4).data": lambda x: np.asarray(UnitQuaternion(np.array([x, 2 * x])).data[1]),
+                                 "UnitQuaternion(Nx4).A": lambda x: np.asarray(UnitQuaternion(np.array([x, 2 * x])).A[0])}.items():
                     cid = (site, feat)
                     u = guard(j, site, feat, {"q": q.tolist()}, cid, lambda: np.asarray(fn(q), dtype=float))
                     if u is None:
@@ -178,8 +187,12 @@ def valuations(j, rng, nval):
         # 2D
         P = gamma.rotz(rng.uniform(-3, 3))[:2, :2] + eps * E[:2, :2]
         t2 = [rng.uniform(-10, 10), rng.uniform(-10, 10)]
+        Hn = b.rt2tr(P, t2)
+        Hn[2, :] += eps * np.array([0.3, -0.7, 0.2])
         for site, fn, arg in (("base.trnorm2(R)", lambda M2: b.trnorm2(M2), P), ("base.trnorm2(T)", lambda M2: b.trnorm2(M2), b.rt2tr(P, t2)),
-                              ("SO2.norm", lambda M2: SO2(M2, check=False).norm().A, P), ("SE2.norm", lambda M2: SE2(M2, check=False).norm().A, b.rt2tr(P, t2))):
+                              ("SO2.norm", lambda M2: SO2(M2, check=False).norm().A, P), ("SE2.norm", lambda M2: SE2(M2, check=False).norm().A, b.rt2tr(P, t2)),
+                              ("base.trnorm2(T;noisy-bottom-row)", lambda M2: b.trnorm2(M2), Hn),
+                              ("SE2.norm(noisy-bottom-row)", lambda M2: SE2(M2, check=False).norm().A, Hn)):
             cid = (site, "noise=%g" % eps)
             out = guard(j, site, "noise=%g" % eps, {"P": P.tolist()}, cid, lambda: np.asarray(fn(arg), dtype=float))
             if out is None:
